@@ -10,6 +10,18 @@ LEVEL = "proof"
 PID = "C09"
 
 CR_ENGINES = ("cr32", "cr32s", "cr64", "cr64s")
+MAX_PER_KIND = 4      # replay files written per kind of violation and run; the rest are counted
+
+
+def violation(ctx, kind, what, replay, no_input=False):
+    """ctx.violation with a cap per kind, so that a systematic break does not flood /verif/replays"""
+    k = "_viol_" + kind
+    n = getattr(ctx, k, 0) + 1
+    setattr(ctx, k, n)
+    if n <= MAX_PER_KIND:
+        ctx.violation(what, replay, no_input)
+    else:
+        ctx.count("further_violations_not_written:" + kind)
 
 
 # ---------------------------------------------------------------- known-finding signatures (predicates on the configuration
@@ -142,7 +154,7 @@ def stage_constructors(ctx, exe):
     ctx.count("constructor_calls_compared", len(real))
     ctx.count("evaluations", len(real))
     if rc != 0 or d:
-        ctx.violation("constructors: real code and Config model disagree: %s" % (d or (rc, err[-300:]),),
+        violation(ctx, "constructors", "constructors: real code and Config model disagree: %s" % (d or (rc, err[-300:]),),
                       {"stage": "constructors", "diff": d, "rc": rc}, no_input=d is None)
 
 
@@ -155,7 +167,7 @@ def classify_dead(ctx, u, known, stage):
         ctx.count("known_finding_hits")
         ctx.hist("known_hits", hits[0])
         return True
-    ctx.violation("C09: soxr_create / the API sequence did not return normally: %s (%s)" % (what, " | ".join(u.ops)[:600]),
+    violation(ctx, "classify_dead", "C09: soxr_create / the API sequence did not return normally: %s (%s)" % (what, " | ".join(u.ops)[:600]),
                   {"stage": stage, "ops": u.ops, "rc": u.rc, "stderr": u.err[-1500:], "model": u.model[:3]})
     return False
 
@@ -224,10 +236,10 @@ def stage_create(ctx, exe, n, known):
             hits = [h for h in sig_known(u) if h in known]
             # F21 (constructor-flagged datatypes accepted) is a verdict-level finding: model and code agree, the oracle objects
             if bad:
-                ctx.violation("C09 fails on the real code: %s (%s)" % (bad[0][1], u.ops[0][:500]),
+                violation(ctx, "create-oracle", "C09 fails on the real code: %s (%s)" % (bad[0][1], u.ops[0][:500]),
                               {"stage": "create", "ops": u.ops, "oracle": bad, "real": u.real, "model": u.model})
             else:
-                ctx.violation("correspondence broken (Config model vs real soxr_create):\n op   : %s\n real : %s\n model: %s" % (
+                violation(ctx, "create", "correspondence broken (Config model vs real soxr_create):\n op   : %s\n real : %s\n model: %s" % (
                     d[1][:500], d[2][:400], d[3][:400]), {"stage": "create", "ops": u.ops, "real": u.real, "model": u.model}, no_input=True)
         else:
             if u.meta["cfg"].get("viaio") and "F21" in sig_known(u) and v.startswith("C ok") and "F21" in known:
@@ -311,10 +323,10 @@ def stage_api(ctx, exe, n, known):
             if "F25" in known and bad[0] == "split":
                 ctx.known("F25", known["F25"]["what"]); ctx.hist("known_hits", "F25")
             else:
-                ctx.violation("C09 sticky error fails on the real code: %s (%s)" % (bad[1], " | ".join(u.model_in)[:800]),
+                violation(ctx, "api-oracle", "C09 sticky error fails on the real code: %s (%s)" % (bad[1], " | ".join(u.model_in)[:800]),
                               {"stage": "api", "ops": u.ops, "real": u.real, "oracle": bad})
         if d:
-            ctx.violation("correspondence broken (error state machine of the Config model vs real soxr.c) at call %d:\n op   : %s\n real : %s\n model: %s\n sequence: %s" % (
+            violation(ctx, "api", "correspondence broken (error state machine of the Config model vs real soxr.c) at call %d:\n op   : %s\n real : %s\n model: %s\n sequence: %s" % (
                 d[0], d[1][:300], d[2][:300], d[3][:300], " | ".join(u.model_in[:d[0] + 1])[:1200]),
                 {"stage": "api", "ops": u.ops, "real": u.real, "model": u.model}, no_input=True)
     ctx.cov["distinct_nontrivial"] = ctx.cov.get("distinct_nontrivial", 0) + len(seen)
@@ -424,7 +436,7 @@ def stage_working(ctx, units, nmax, known):
             if hits:
                 ctx.known(hits[0], known[hits[0]]["what"]); ctx.hist("known_hits", hits[0])
             else:
-                ctx.violation("C09: configuration accepted in the probe harness is not created by the trace harness (%s): rc=%s %s" % (
+                violation(ctx, "working", "C09: configuration accepted in the probe harness is not created by the trace harness (%s): rc=%s %s" % (
                     u.ops[0][:400], tr.rc, (tr.create_line or tr.err)[-400:]), {"stage": "working", "ops": u.ops, "trace": tr.lines[-5:], "stderr": tr.err[-1500:]})
             continue
         if how == "skip-memory":
@@ -465,7 +477,7 @@ def stage_working(ctx, units, nmax, known):
                 ctx.count("other_areas_known_hits")
             else:
                 rep["what"] = bad
-                ctx.violation("C09 accepted => working fails on the real code: %s (%s %s)" % (bad, cr.create_line(tcfg), env), rep)
+                violation(ctx, "working", "C09 accepted => working fails on the real code: %s (%s %s)" % (bad, cr.create_line(tcfg), env), rep)
         else:
             ctx.count("working_streams_ok")
     ctx.cov["distinct_nontrivial"] = ctx.cov.get("distinct_nontrivial", 0) + len(shapes)
@@ -504,11 +516,11 @@ def stage_pinned(ctx, exe, known):
             ctx.known(fid, known[fid]["what"])
         elif hit and fid not in known:
             # a reproduced defect that is not (or no longer) listed as known
-            ctx.violation("C09: defect %s reproduces on the real code but is not an active known finding: %s" % (fid, " | ".join(u.ops)[:400]),
+            violation(ctx, "pinned", "C09: defect %s reproduces on the real code but is not an active known finding: %s" % (fid, " | ".join(u.ops)[:400]),
                           {"stage": "pinned", "ops": u.ops, "real": u.real, "rc": u.rc, "stderr": u.err[-800:]})
         if exp != "dead" and cl.diff_unit(u):
             d = cl.diff_unit(u)
-            ctx.violation("correspondence broken on pinned case %s: op %s real %s model %s" % (fid, d[1][:200], d[2][:200], d[3][:200]),
+            violation(ctx, "pinned", "correspondence broken on pinned case %s: op %s real %s model %s" % (fid, d[1][:200], d[2][:200], d[3][:200]),
                           {"stage": "pinned", "ops": u.ops, "real": u.real, "model": u.model}, no_input=True)
 
 
@@ -517,9 +529,9 @@ def run(ctx):
     known = {f["id"]: f for f in common.known_active(PID)}
     exe = common.build_harness("config_probe", ["config/probe.c"], "dbg")
     stage_constructors(ctx, exe)
-    units = stage_create(ctx, exe, 5000 if ctx.quick else 120000, known)
+    units = stage_create(ctx, exe, 5000 if ctx.quick else 60000, known)
     stage_api(ctx, exe, 1500 if ctx.quick else 30000, known)
-    stage_working(ctx, units, 220 if ctx.quick else 5000, known)
+    stage_working(ctx, units, 220 if ctx.quick else 2500, known)
     stage_pinned(ctx, exe, known)
     ctx.cov["rule"] = ("generated soxr_create calls over the product space (rates: audio / small integers / 1e-300..1e300 decades / the 2^31 factor bound / "
                        "big up-sampling / zeros, signs, non-finite, overflowing quotients; channels 0..300; recipes 0..15 x phase bits x steep x flag words; "
